@@ -119,10 +119,11 @@ func c11Case(w *core.Worker, i int) {
 		return d, run
 	}
 	d, run := runKeep(p.Text(), nil)
-	if run.res.Code != 0 {
+	if run.res.Code != 0 && !strings.Contains(run.res.Stderr, "failed to commit") {
 		w.Inconclusive("generated procedure fails by itself: " + truncateStr(run.res.Stderr, 200))
 		return
 	}
+	// (a COMMIT that is refused — a header-less table with no record left — is one more way of ending: judged like the others)
 	judge(d, run, "none", nil)
 	w.Case(digest+"/none", true)
 	if i < 4 {
@@ -272,6 +273,31 @@ func c11Locks(w *core.Worker, r *core.Rng, i int) {
 		w.Case(digest+"live"+st, res.Code == 8)
 	}
 	_ = baseSnap
+	// (6) a second table whose path differs from a held one only in letter case (a different file on this file system):
+	// whatever csvq makes of it, a run that fails leaves nothing behind
+	up := strings.ToUpper(f1)
+	for _, prog := range []string{
+		"UPDATE f1 SET c1 = 'h' WHERE id = 1; CREATE TABLE `" + up + "` (a, b);",
+		"CREATE TABLE `zz.csv` (a); CREATE TABLE `ZZ.csv` (a); INSERT INTO `ZZ.csv` VALUES (1);",
+		"SELECT COUNT(*) FROM f1 FOR UPDATE; CREATE TABLE `" + up + "` (a) AS SELECT 1;",
+		"INSERT INTO f1 VALUES (901, 'x', 'y'); SELECT * FROM `" + up + "`;",
+	} {
+		d := core.FreshDir(w.Work, "cased")
+		copyDir(base, d)
+		before := core.TakeSnap(d)
+		res := core.RunProc(core.ProcOpts{Dir: d, Args: csvqArgs("-q", "--wait-timeout", "0.3", prog), Timeout: 60 * time.Second})
+		after := core.TakeSnap(d)
+		for _, nm := range after.Names() {
+			if core.IsControlFile(nm) {
+				w.Violation("leftover-control-file@case-variant", fmt.Sprintf("%q (exit %d) left %s", prog, res.Code, nm), txReplay{Files: small(p.Files), Program: prog, Variant: "case variant"})
+			}
+		}
+		if df := core.Diff(before, after); res.Code != 0 && !df.Empty() {
+			w.Violation("failed-run-changed-something", fmt.Sprintf("%q failed (exit %d) but the repository changed: %s", prog, res.Code, df), txReplay{Files: small(p.Files), Program: prog, Variant: "case variant"})
+		}
+		w.Count("case_variant_runs", 1)
+		w.Case(digest+"case"+prog, true)
+	}
 	// (5) --out: an output file that received nothing is removed again, wherever the procedure went in the meantime
 	for _, outp := range []string{"result.out", "sub/result.out", "ABS"} {
 		for _, prog := range []string{"SELECT * FROM no_such_table;", "VAR @x := 1; EXIT 3;", "VAR @x := 1;", "CHDIR 'sub'; SELECT * FROM no_such_table;", "CHDIR 'sub'; VAR @x := 1; EXIT 3;", "CHDIR 'sub'; VAR @x := 1;", "CHDIR 'sub'; CHDIR '..'; VAR @x := 1;", "UPDATE f1 SET c1 = 'o' WHERE id = 1; CHDIR 'sub'; EXIT;"} {
